@@ -53,7 +53,6 @@ func rolesOf(fn *types.Func, elem types.Type) []role {
 }
 
 type k2ctxUnused struct {
-
 	elem types.Type
 	cls  string
 }
